@@ -506,7 +506,7 @@ def rule_receiver_consistency(ctx, rep: Report, rid="B3"):
     fc = tpl.slot("function_call").sub
     if fc is None or fc.slot("caller") is None:
         raise AnalysisError("_wrap_method: call template / caller slot not found")
-    caller = one_value(fn, fc.slot("caller").expr)
+    caller = fc.slot("caller").val if isinstance(fc.slot("caller").val, ast.IfExp) else one_value(fn, fc.slot("caller").expr)
     # predicates: every name used in the three tests that is bound to isinstance(<method>, ...)
     preds: Dict[str, Set[str]] = {}
     for e in (cdef, opt_self, caller):
@@ -799,13 +799,18 @@ def rule_same_entity(ctx, rep: Report, rid="B6"):
         raise AnalysisError("wrap_instantiated_class: class declaration template not found")
     okp_all, guards_all, details = True, [], []
     for st_, t_ in decl_tpls:
-        pexpr = t_.slot("class_parent").expr
-        pvals = values_of(fn, pexpr) if pexpr is not None else []
-        cp = [st for st in walk_no_nested(fn) if isinstance(st, ast.Assign) and st.value in pvals]
-        okp = any(f"{ip}.parent_class" in unparse(v) for v in pvals) and any(unparse(v) == "''" for v in pvals)
-        guard = [unparse(i.test) for i in walk_no_nested(fn) if isinstance(i, ast.If) and any(s2 in i.body for s2 in cp)]
-        okp_all = okp_all and okp and guard == [f"{ip}.parent_class"]
-        details.append(f"line {st_.lineno}: class_parent <- {[unparse(v)[:40] for v in pvals]} under {guard}")
+        # the base-class slot as one conditional value (a ternary, or an if/else statement binding the local): the base when the
+        # class declares one, nothing otherwise
+        v_ = t_.slot("class_parent").val
+        okp, shown = False, unparse(v_)[:60] if v_ is not None else None
+        if isinstance(v_, ast.IfExp):
+            test, yes, no = v_.test, v_.body, v_.orelse
+            while isinstance(test, ast.UnaryOp) and isinstance(test.op, ast.Not):
+                test, yes, no = test.operand, no, yes
+            okp = unparse(test).strip("()") == f"{ip}.parent_class" and f"{ip}.parent_class" in unparse(yes) \
+                and isinstance(no, ast.Constant) and no.value == ""
+        okp_all = okp_all and okp
+        details.append(f"line {st_.lineno}: class_parent <- {shown}")
     rep.add(rid, "class:py::class_<...> names the declared base iff there is one", okp_all,
             "; ".join(details) + ": every registration of the class (with or without enums in its body) must carry the declared base, "
             "otherwise the Python class silently loses its inherited members", f"{ci.mod.rel}:{fn.lineno}")
